@@ -800,7 +800,10 @@ impl HuffmanDecoder {
             None => return Err(ZiporaError::invalid_data("Empty Huffman tree")),
         };
 
-        let mut result = Vec::with_capacity(output_length);
+        // Every symbol consumes at least one bit (plus one pending leaf at the end), so
+        // an `output_length` beyond that can never be reached: do not reserve for it.
+        let max_symbols = encoded_data.len().saturating_mul(8).saturating_add(1);
+        let mut result = Vec::with_capacity(output_length.min(max_symbols));
         let mut current_node = root;
 
         for &byte in encoded_data {
